@@ -1,5 +1,5 @@
 (* C13 — Stream combinators and pipelines of them are transparent. *)
-From SbModel Require Import Model.Procs Spec.StreamSpec Spec.Pipeline Spec.DecodeGrammar Proofs.SinksP Proofs.StreamsP Proofs.HashP Proofs.PipelineP.
+From SbModel Require Import Proofs.UnmarshalP Proofs.AnyP Proofs.AnyRegP Proofs.PipelineAnyP Model.Procs Spec.StreamSpec Spec.Pipeline Spec.DecodeGrammar Proofs.SinksP Proofs.StreamsP Proofs.HashP Proofs.PipelineP.
 Local Open Scope nat_scope.
 
 Local Open Scope nat_scope.
@@ -94,6 +94,56 @@ Theorem c13_pipeline_injective_hash H R pf v p L :
   run_pipeline H R pf p (flatten v) = Ok (flatten v).
 Proof. exact (pipeline_identity_inj H R pf v p L). Qed.
 
+Local Open Scope N_scope.
+(* the premise of the pipeline theorems (the schema-less round trip of the input, property C11) holds on the whole schema-less domain ... *)
+Theorem c13_c11_premise_discharged R pf v :
+  any_ok R v -> Pipeline.any_roundtrip R pf (flatten v) = Ok (flatten v).
+Proof. exact (any_roundtrip_of_any_ok R pf v). Qed.
+
+Local Open Scope N_scope.
+(* ... so every program of identity-preserving stages maps every value stream of that domain to the identical stream, without premise *)
+Theorem c13_pipeline_any H R pf v p :
+  wf_value v = true -> ref_free v = true ->
+  Forall (wf_enc default_maxlen) (flatten v) ->
+  (forall x, H x <> []) ->
+  any_ok R v ->
+  Forall (stage_side H v) p ->
+  run_pipeline H R pf p (flatten v) = Ok (flatten v).
+Proof. exact (pipeline_identity_any H R pf v p). Qed.
+
+Local Open Scope N_scope.
+(* with an identical hash *)
+Theorem c13_pipeline_hash_any H R pf v p :
+  wf_value v = true -> ref_free v = true ->
+  Forall (wf_enc default_maxlen) (flatten v) ->
+  (forall x, H x <> []) ->
+  any_ok R v ->
+  Forall (stage_side H v) p ->
+  exists out, run_pipeline H R pf p (flatten v) = Ok out /\ hash_result H out = inl (mhash H v).
+Proof. exact (pipeline_hash_any H R pf v p). Qed.
+
+Local Open Scope N_scope.
+(* with registered names nested in the input, provided the fuel constant of the stage model suffices (any_fuel_ok: true whenever the registry's types nest at most 3 deep, c13_fuel_ok_depth3) *)
+Theorem c13_pipeline_any_reg H R pf v p :
+  wf_value v = true -> ref_free v = true ->
+  Forall (wf_enc default_maxlen) (flatten v) ->
+  (forall x, H x <> []) ->
+  any_ok_reg R v -> any_fuel_ok R pf (flatten v) ->
+  Forall (stage_side H v) p ->
+  run_pipeline H R pf p (flatten v) = Ok (flatten v).
+Proof. exact (pipeline_identity_any_reg H R pf v p). Qed.
+
+Local Open Scope nat_scope.
+Theorem c13_fuel_ok_depth3 R pf ts :
+  reg_depth R <= 3 -> any_fuel_ok R pf ts.
+Proof. exact (any_fuel_ok_depth3 R pf ts). Qed.
+
+Local Open Scope N_scope.
+(* the edge that makes the side condition necessary: a registered type 2100 pointers deep exhausts the constant 2000 + 4*len of the STAGE MODEL (Spec/Pipeline.v); the Go code has no fuel - nothing to replay *)
+Theorem c13_fuel_constant_edge  :
+  exists R pf v, any_ok_reg R v /\ Pipeline.any_roundtrip R pf (flatten v) <> Ok (flatten v).
+Proof. exact (any_roundtrip_of_any_ok_reg_refuted ). Qed.
+
 Print Assumptions c13_run_is_den.
 Print Assumptions c13_tee.
 Print Assumptions c13_iter_stream.
@@ -106,3 +156,9 @@ Print Assumptions c13_stage_identity.
 Print Assumptions c13_pipeline.
 Print Assumptions c13_pipeline_hash.
 Print Assumptions c13_pipeline_injective_hash.
+Print Assumptions c13_c11_premise_discharged.
+Print Assumptions c13_pipeline_any.
+Print Assumptions c13_pipeline_hash_any.
+Print Assumptions c13_pipeline_any_reg.
+Print Assumptions c13_fuel_ok_depth3.
+Print Assumptions c13_fuel_constant_edge.
